@@ -17,6 +17,7 @@ import (
 	"reflect"
 	"strconv"
 	"strings"
+	"sync"
 	"unicode/utf8"
 )
 
@@ -222,3 +223,16 @@ func vSameJSON(a, b string) bool {
 	}
 	return reflect.DeepEqual(x, y)
 }
+
+// goroutines of a harness: natively real goroutines (the replay of a data race runs under the race detector)
+var vWG sync.WaitGroup
+
+func vGo(f func()) {
+	vWG.Add(1)
+	go func() {
+		defer vWG.Done()
+		f()
+	}()
+}
+
+func vJoin() { vWG.Wait() }
